@@ -267,7 +267,7 @@ def same_class(res, cls, sig):
     return False
 
 
-def shrink(check, ctx, case, cls, sig, max_runs=300, max_s=90):
+def shrink(check, ctx, case, cls, sig, max_runs=900, max_s=150):
     t0 = time.time()
     runs = 0
     best = case
